@@ -35,7 +35,9 @@
     their callback (callbacks as data, `Rule`; nested `WriteProperty` = nested `wpM`):
         `wpM_inv`, `wpM_accept_inv` (when the outermost write returns, present value =
         winner, whatever the callbacks did), `present_is_winner_monitors`,
-        `wpM_refused_unchanged`; `wpM_nil` / `stepM_nil`: without user monitors `wpM`
+        `wpM_refused_unchanged`; a monitor that RAISES (`Rule.raises`): the value stays
+        written, the exception reaches the caller, and `wpM_inv` / `wpM_accept_inv` hold
+        for that exceptional return too; `wpM_nil` / `stepM_nil`: without user monitors `wpM`
         IS `wp`, so all theorems above speak about the function the driver runs
   * the generated class table (20 classes, priority-value choice, MinOnOff on the
     binary ones, MRO override)                              → `table_*` (kernel `decide`)
@@ -1039,6 +1041,9 @@ theorem runRules_inv (cfg : Cfg V)
     simp only [runRules]
     by_cases hf : r.fires new (leftAt m.left k) = true
     · simp only [hf, if_true]
+      by_cases hr : r.raises = true
+      · simp only [hr, if_true]; exact h
+      simp only [hr]
       have h1 := hcall { m with left := decrAt m.left k } r.value r.prio h
       cases hc : call { m with left := decrAt m.left k } r.value r.prio with
       | mk m' e =>
@@ -1157,6 +1162,18 @@ theorem present_is_winner_monitors (cfg : Cfg V) (rules : List (Rule V)) (m : MS
   induction evs generalizing m with
   | nil => exact h
   | cons e es ih => exact ih (stepM cfg rules m e).1 (stepM_inv cfg rules m e h)
+
+/-- non-vacuity, and what the code does when a monitor raises: a monitor that commands
+    priority 1 when the value becomes 7, and one that raises on any change.  Writing 7 at
+    priority 8: the value is stored, the first callback commands 0 at priority 1 (a
+    nested write; the raising monitor, told about THAT change, raises: the exception
+    travels out through both calls), nothing is rolled back: present value = winner -/
+example :
+    let cfg : Cfg Nat := ⟨0, fun _ => none, false, 0, 1, 0, 0⟩
+    let rules : List (Rule Nat) := [⟨some 7, some 1, some 0, false⟩, ⟨none, none, none, true⟩]
+    let r := stepM cfg rules ⟨init 3, [1, 2]⟩ (command (some 7) (some 8))
+    r.2 = some .monitorError ∧ r.1.st.present = 0 ∧ r.1.st.slots 1 = some 0 ∧
+    r.1.st.slots 8 = some 7 ∧ r.1.left = [0, 1] := by decide
 
 /-- **conservative extension**: with no user monitors `wpM` is `wp` (so every theorem
     about `wp` / `step` speaks about the function the driver runs) -/
